@@ -146,3 +146,13 @@ C("C02", "model_checking",
   "translation/rotation: equal lengths/times/attenuations, directions rotated with the geometry; exists == non-empty; gradient tracers "
   "report 0 or 2 solutions. Solutions are matched across an edge by time of flight and direction. Open finding K4b (near-vertical).",
   "tolerances: exact generators 1e-9 (Specialized 1e-6: root finding), swap 2e-6, attenuation in log space", "DESIGN.md §4 C02")
+C("C18", "exploration",
+  "exhaustive finite lattice of uniform-ice configurations and layered stacks against the image method, joint-by-joint Snell/mirror checks from the reported vectors, and the unsplit medium's tracer",
+  "UniformIce: 2 ranges x 2 indices x 3 boundary-index settings x 2 horizontal offsets x 9 depth pairs x 4 separations x max_reflections 0..3: "
+  "the solution set is exactly the image-method set (no reflection off a boundary without index), path length and directions are those of the "
+  "unfolded straight line, tof = nL/c, reflection points lie on the boundary planes and on the unfolded line. Layered: uniform|uniform and "
+  "Antarctic|Antarctic split at -100/-400/-777 m: every unsplit solution has a layered counterpart with equal length, time, directions and "
+  "Fresnel factors (unit transmission), every additional solution reflects off the fictitious boundary with amplitude 0; stacks U|U, U|U|U, U|A: "
+  "every solution is a continuous chain from source to receiver, joints on boundaries, n sin(theta) conserved or mirrored at each joint, "
+  "azimuth continuous, sums of sub-path lengths/times, Fresnel factors == product of the joint coefficients recomputed from the vectors.",
+  "layers are constructed with neighbour-consistent index_above/index_below; exponential split restricted to class W", "DESIGN.md §4 C18")
